@@ -113,6 +113,12 @@ class Tensor:
                 sliced_indices.append([start, stop, axis_, step])
             elif isinstance(s, Tensor):
                 if s.is_scalar:
+                    if not np.issubdtype(s.dtype, np.integer):
+                        # NumPy raises IndexError for a float index and gives a boolean scalar a
+                        # different meaning; int() below would silently truncate/convert it.
+                        raise TypeError(
+                            f"A tensor used as an index must have an integer type, not {s.dtype}."
+                        )
                     # The scalar index i is treated as the slice i:i+1 (squeezed below), except
                     # for i == -1, whose end would be 0 and select nothing: go to the end instead.
                     i = int(s)
